@@ -262,6 +262,19 @@ def env_triples(H):
     for m in mods:
         out += module_triples(m, conv)
     out += class_triples(base)
+    # parsing methods of the hasher classes: formatting / indexing with symbolic operands goes through hooks
+    from .instrument import instrument_attr
+    done = set()
+    for k in base.__mro__:
+        if not getattr(k, "__module__", "").startswith(("passlib.handlers", "libpass")):
+            continue
+        for attr in list(vars(k)):
+            if (attr in ("from_string", "parse", "to_string", "_get_config") or attr.startswith("_parse_")) and (k, attr) not in done:
+                done.add((k, attr))
+                try:
+                    out.append(instrument_attr(k, attr, opts=("fmt", "fstr", "idx", "join")))
+                except Exception:
+                    pass
     # binary.py's own C-level codecs
     b2a, a2b, Err = _b64_model()
     out += [(B, "_BinAsciiError", Err)]
